@@ -18,6 +18,8 @@ import (
 
 const modulePrefix = "github.com/thanos-community/promql-engine/"
 
+var debugHook func(p *Program)
+
 type Program struct {
 	repo     string
 	pkgs     []*packages.Package
@@ -31,6 +33,7 @@ type Program struct {
 	preludeS string
 	postS    string
 	smtFuncs map[string]smtSig
+	mapFacts map[string]*globalMapFact
 }
 
 func qual(p *types.Package) string {
@@ -47,6 +50,9 @@ func qual(p *types.Package) string {
 func funcKey(f *ssa.Function) string {
 	if f == nil {
 		return "<nil>"
+	}
+	if o := f.Origin(); o != nil && o != f {
+		return funcKey(o)
 	}
 	if f.Parent() != nil {
 		// closure: parentKey$N
@@ -134,6 +140,10 @@ func loadProgram(repo, specDir string) (*Program, error) {
 	p.preludeS = basePrelude
 	p.postS = strings.Join(cs.SMT, "\n") + "\n"
 	p.smtFuncs = parseSMTFuncs(cs.SMT)
+	p.computeInitFacts()
+	if debugHook != nil {
+		debugHook(p)
+	}
 	return p, nil
 }
 
